@@ -321,6 +321,8 @@ func generate() {
 	if hx.Tier() == "thorough" {
 		bigCase(r, 2500, 1500)
 	}
+	// 5b. lines at the bufio.Scanner token limit (64 KiB): 65535 bytes are read, 65536 are not
+	longLines(r)
 	// 6. several files through one Files
 	filesCorpus()
 	n = hx.N(600, 15000)
@@ -397,4 +399,42 @@ func genFiles(r *hx.Rand) {
 		stdin = append(stdin, []byte("\nBenchmarkStdin 1 1 ns/op\n")...)
 	}
 	runFiles(paths, allowStdin, allowLabels, fs, stdin)
+}
+
+// longLines: lines just below, at and above bufio.MaxScanTokenSize, as key/value, benchmark and
+// foreign lines, terminated by LF / CRLF / nothing, with lines before and after.
+func longLines(r *hx.Rand) {
+	pad := func(n int, b byte) string { return strings.Repeat(string([]byte{b}), n) }
+	mk := func(kind int, total int) string {
+		switch kind {
+		case 0: // key: value
+			return "k: " + pad(total-3, 'v')
+		case 1: // benchmark line with a long name
+			tail := " 1 1 ns/op"
+			return "Benchmark" + pad(total-9-len(tail), 'N') + tail
+		}
+		return pad(total, 'x') // foreign
+	}
+	for kind := 0; kind < 3; kind++ {
+		for _, total := range []int{65534, 65535, 65536, 65537} {
+			for _, eol := range []string{"\n", "\r\n", ""} {
+				if hx.Tier() != "thorough" && (total == 65534 || (eol == "\r\n" && kind == 2)) {
+					continue
+				}
+				text := "a: 1\nBenchmarkBefore 1 1 ns/op\n" + mk(kind, total-len(strings.TrimSuffix(eol, "\n"))) + eol
+				if eol != "" {
+					text += "BenchmarkAfter 1 2 ns/op\nb: 2\nBenchmarkAfter2 1 2 ns/op\n"
+				}
+				runReader("long", []byte(text), "longline")
+			}
+		}
+	}
+	_ = r
+	// through Files: the over-long line ends the whole run; the second file is never opened
+	long := []byte("BenchmarkOne 1 1 ns/op\n" + pad(65536, 'z') + "\nBenchmarkNever 1 1 ns/op\n")
+	ok := []byte("k: " + pad(65532, 'v') + "\nBenchmarkLongCfg 1 1 ns/op\n")
+	two := []byte("BenchmarkTwo 1 2 ns/op\n")
+	runFiles([]string{"a", "b"}, false, false, []fsEntry{{"a", long}, {"b", two}}, nil, "longline")
+	runFiles([]string{"a", "b"}, false, false, []fsEntry{{"a", ok}, {"b", two}}, nil, "longline")
+	runFiles([]string{"b", "-", "b"}, true, false, []fsEntry{{"b", two}}, long, "longline")
 }
